@@ -243,7 +243,8 @@ class DnsRecordDnskey(ParsableBase, Serializable):
     @staticmethod
     def _compose_public_key_dss(key_composer, key):
         key_params = key.params
-        key_size = (key_params.prime.bit_length() + 7) // 8
+        # (the generator and the public value of a real key are smaller than the prime, the field is sized by the largest all the same)
+        key_size = (max(key_params.prime, key_params.generator, key_params.public_key_value).bit_length() + 7) // 8
 
         # P, G and Y are 64 + T * 8 octets wide each (RFC 2536 2), a prime that needs fewer octets gets leading zeros
         size_parameter = max(0, (key_size - 64 + 7) // 8)
